@@ -9,7 +9,7 @@ use any_vec::traits::{Cloneable, Trait};
 use any_vec::{AnyVec, AnyVecTyped, SatisfyTraits};
 
 use crate::elem::Elem;
-use crate::track::{Track, TrackFence, TrackFixed, TrackTight, TrackWarm};
+use crate::track::{Track, TrackFence, TrackFixed, TrackGreedy, TrackTight, TrackWarm};
 use crate::types::CapCall;
 
 #[derive(Clone, Copy, Debug, PartialEq, Eq)]
@@ -119,6 +119,15 @@ impl MX for TrackWarm {
     type Aux = Track;
     fn make() -> Self { TrackWarm }
     fn name() -> String { "TrackWarm".into() }
+    resizable_impl!();
+}
+
+impl MX for TrackGreedy {
+    const KIND: BK = BK::Track;
+    const AMORTISED: bool = false;
+    type Aux = Track;
+    fn make() -> Self { TrackGreedy }
+    fn name() -> String { "TrackGreedy".into() }
     resizable_impl!();
 }
 
